@@ -5,7 +5,7 @@ runs every registered quick check without writing evidence, and records every ch
 Writes <dir>/matrix.json.  usage: refactor_matrix.py [dir] [jobs]"""
 import json, os, sys, glob
 from multiprocessing import Pool
-sys.path.insert(0, '/verif')
+sys.path.insert(0, os.environ.get('KVERIF_HOME', '/verif'))
 
 root = sys.argv[1] if len(sys.argv) > 1 else '/verif/seeded/refactor'
 jobs = int(sys.argv[2]) if len(sys.argv) > 2 else 12
